@@ -107,7 +107,7 @@ async fn graph_case(ctx: &mut Ctx<'_>, label: &str, top_to: &[usize], edges: &[(
     let mut world = World::new(ctx.pool, Names::default());
     let mut msgs = MsgGen(0);
     let b = base_repo(&mut msgs, cs, false);
-    let drole = |n: usize| ADRole { name: n, ids: vec![DK], thr: 1, patterns: vec!["*".into()] };
+    let drole = |n: usize| ADRole { name: n, ids: vec![DK], thr: 1, patterns: vec!["*".into()], hash_prefixes: vec![] };
     let mut top = b.top.clone();
     top.entries = vec![];
     top.deleg = Some(ADeleg { table: vec![DK], roles: top_to.iter().map(|&n| drole(n)).collect() });
